@@ -363,52 +363,33 @@ def run(ctx, anchors=None):
             inv.append("%s size=%s" % (ext.loc(n), astq.const_value(n["args"][2])))
     ctx.extra["stepextended_numeric_sizes_inventory_only"] = inv
 
-    # ---- R10.6 op counter reset at every script switch
-    def script_switch_events(func):
-        fal = astq.aliases(func)
-        ev = []
-        for n in func.nodes():
-            lhs = None
-            if n["k"] == "opcall" and n["op"] == "=" and len(n["args"]) == 2:
-                lhs = n["args"][0]
-            elif n["k"] == "assign":
-                lhs = n["lhs"]
-            if lhs is not None and any(p[1:] == ("script",) for p in astq.paths(lhs, fal)):
-                ev.append(n)
-        return ev
-
-    def resets_of(func):
-        fal = astq.aliases(func)
-        return [n for n in func.nodes() if n["k"] == "assign" and astq.const_value(n["rhs"]) == 0
-                and any(p[1:] == ("nOpCount",) for p in astq.paths(n["lhs"], fal))]
-    nsw = 0
-    for f in [stepper] + [g for (cn, g) in prog.callees(stepper, include_fnptr=False) if g.file == stepper.file]:
-        evs = script_switch_events(f)
-        if not evs:
-            continue
-        fcfg = f.cfg()
-        rs = resets_of(f)
-        for swn in evs:
-            nsw += 1
-            ok = fcfg.must_pass_after(swn, rs) if rs else False
-            if not ok and f is not stepper:
-                # helper: every call site in the stepper must reset after the call
-                css = [cn for cn in stepper.nodes() if astq.is_call(cn) and cn.get("cid") == f.id]
-                srs = resets_of(stepper)
-                scfg = stepper.cfg()
-                bad = [cn for cn in css if not (srs and scfg.must_pass_after(cn, srs))]
-                for cn in bad:
-                    ctx.fail("R10.6", "opcount-reset:" + astq.estr(cn)[:50], stepper.loc(cn),
-                             "the script switch performed by %s at %s is not followed by a reset of nOpCount on every path: the next script inherits the previous script's operation count"
-                             % (f.name, stepper.loc(cn)))
-                for cn in css:
-                    if cn not in bad:
-                        ctx.ok("R10.6", "opcount-reset:" + astq.estr(cn)[:50], stepper.loc(cn), "nOpCount is reset after the switch through %s" % f.name)
-                continue
-            ctx.inst(ok, "R10.6", "opcount-reset:" + astq.estr(swn)[:50], f.loc(swn),
-                     "every path after the script switch resets nOpCount to 0 before returning",
-                     "after the script switch `%s` the stepper can return without resetting nOpCount" % astq.estr(swn))
-    ctx.floor("R10.6", nsw, 1, "script switches (script = ...) in the session stepper or its helpers")
+    # ---- R10.6 op counter reset at every script switch (helper-aware)
+    from . import common
+    scfg = stepper.cfg()
+    sws = common.script_switches(prog, stepper)
+    al_s = astq.aliases(stepper)
+    resets = [n for n in common.field_writers(prog, stepper, "nOpCount")
+              if (n.get("k") == "assign" and astq.const_value(n["rhs"]) == 0) or astq.is_call(n)]
+    # a helper call counts as a reset only if the helper assigns the constant 0
+    good_resets = []
+    for n in resets:
+        if astq.is_call(n):
+            ok_h = False
+            for g in prog.resolve(n["cid"]):
+                for m in g.nodes():
+                    if m.get("k") == "assign" and astq.const_value(m["rhs"]) == 0 and astq.estr(m["lhs"]).endswith("nOpCount"):
+                        ok_h = True
+            if ok_h:
+                good_resets.append(n)
+        else:
+            good_resets.append(n)
+    for swn in sws:
+        ctx.site()
+        ok = (swn in good_resets) or (bool(good_resets) and scfg.must_pass_after(swn, good_resets))
+        ctx.inst(ok, "R10.6", "opcount-reset:" + astq.estr(swn)[:50], stepper.loc(swn),
+                 "every path after the script switch resets nOpCount to 0 before returning",
+                 "after the script switch `%s` the stepper can return without resetting nOpCount: the next script inherits the previous script's operation count" % astq.estr(swn)[:60])
+    ctx.floor("R10.6", len(sws), 1, "script switches in the session stepper")
 
 
 MUTANTS = [
